@@ -138,6 +138,30 @@ func mutations(s string) []string {
 	return out
 }
 
+// truncations: a short nonce with its HMAC cut to fewer bytes than the server mints (2 .. hlen-1), and the bare
+// time stamp: a shorter MAC is a weaker MAC, none of them is a nonce of this server.
+func truncations(s string, hlen int) []string {
+	if hlen == 0 {
+		return nil
+	}
+	n := new(big.Int)
+	if _, ok := n.SetString(strings.ToLower(s), 36); !ok {
+		return nil
+	}
+	raw := n.Bytes()
+	b := make([]byte, 4+hlen)
+	if len(raw) > len(b) {
+		return nil
+	}
+	copy(b[len(b)-len(raw):], raw)
+	var out []string
+	for l := 0; l < hlen; l++ {
+		out = append(out, strings.ToUpper(new(big.Int).SetBytes(b[:4+l]).Text(36)))
+	}
+
+	return out
+}
+
 func TestC03Nonce(t *testing.T) {
 	r := rep.New("C03")
 	defer r.Write()
@@ -182,7 +206,7 @@ func TestC03Nonce(t *testing.T) {
 				if other.nm.Validate(minted) == nil {
 					viol("nonce-of-another-instance-accepted", minted)
 				}
-				for _, mu := range mutations(minted) {
+				for _, mu := range append(mutations(minted), truncations(minted, m.hlen)...) {
 					r.Evaluations++
 					ts, authentic := refStructure(m, mu)
 					err := m.nm.Validate(mu)
